@@ -15,11 +15,12 @@ type A implements Node { id: ID! n: Int peer: Node }
 type B implements Node { id: ID! flag: Boolean }
 type C { x: Int }
 union U = A | B
+union V = B | C
 enum Color @mark { RED GREEN }
 scalar My @mark
 input Inp { x: Int! @mark y: [Int] c: Color inner: Inp }
 type Query {
-  a: Int @mark  b: Int  q: Query  node: Node  u: U  nodes: [Node]  c: C
+  a: Int @mark  b: Int  q: Query  node: Node  u: U  nodes: [Node]  c: C  v: V
   arg(i: Int @mark, ni: Int! = 1, li: [Int], lli: [[Int]], s: String, c: Color, o: Inp, b: Boolean, f: Float, id: ID, my: My, lo: [Inp!]): Int
   req(x: Int!): Int
 }
@@ -93,6 +94,7 @@ def make(name=NAME, **kw):
     Scalar("My", schema_name=name)(MyScalar)
     TypeResolver("Node", schema_name=name)(_tres)
     TypeResolver("U", schema_name=name)(_tres)
+    TypeResolver("V", schema_name=name)(_tres)
 
     @Subscription("Subscription.t1", schema_name=name)
     async def s1(parent, args, ctx, info):
@@ -112,7 +114,7 @@ MODEL = model_from_sdl(SDL)
 MODEL["custom"] = {"My": {"in": lambda v: v, "lit": lambda n: n.get("value"), "out": lambda v: v}}
 NODE_A = {"_typename": "A", "id": "a", "n": 1, "peer": {"_typename": "B", "id": "b", "flag": True}}
 NODE_B = {"_typename": "B", "id": "b2", "flag": False}
-ROOT = {"a": 1, "b": 2, "node": NODE_A, "u": NODE_B, "nodes": [NODE_A, NODE_B], "c": {"x": 3}}
+ROOT = {"a": 1, "b": 2, "node": NODE_A, "u": NODE_B, "nodes": [NODE_A, NODE_B], "c": {"x": 3}, "v": NODE_B}
 ROOT["q"] = ROOT
 
 
